@@ -57,10 +57,13 @@ CLAIMS = {
              "throughput/latency value and load/store table entry is well-formed, lifted by wf_costable/shipped_costable (for all port "
              "lists and raw lists) to: costing never raises and returns the exactly feasible uniform split; counts_spec for --db-check. "
              "Tie: raw YAML vs loaded MachineModel entry by entry, every distinct list through the real average_port_pressure vs the "
-             "Lean model, --db-check counters vs sanityCounts vs a raw count.",
+             "Lean model, --db-check counters vs sanityCounts vs a raw count. The property's CLI path: one instruction synthesised per "
+             "payload class (throughput/latency absent, zero, positive; micro-ops empty/list/alternatives; operand classes) of every "
+             "model through the real osaca.inspect, optimal and --fixed, text report and --yaml-out, must not raise.",
         design="5/C15",
-        note=COMMON_NOTE + "Modelled not verified: ruamel.yaml. The CLI path (one synthesised instruction per entry) is exercised by C07's "
-             "self-match sweep. bdw/csx/skx are empty in this sandbox and skipped.",
+        note=COMMON_NOTE + "Modelled not verified: ruamel.yaml. The per-entry matching and costing sweep (every entry) is C07's self-match sweep; the "
+             "CLI-path sweep here is per payload class (40 classes per model in the quick tier, all in the thorough tier) and is an "
+             "execution-level oracle, not a theorem. bdw/csx/skx are empty in this sandbox and skipped.",
         technique="Lean 4 proof (decide +kernel tables from YAML + general costing lemma) + exhaustive correspondence",
     ),
     "C03": dict(
@@ -68,7 +71,8 @@ CLAIMS = {
              "exactly the read-after-write positions (reads t, no earlier write of t) with the producer's tag; no_edge_past_kill, "
              "findDepending_forward (edges point forward), edge_weight_spec, flags_ignored_without_option. Tie: register tables from "
              "the parser sources (C12) + create_DG of the real code vs DG.create edge by edge with weights; oracle: declarative "
-             "Spec.rawEdges vs the implementation's edges, a curated vocabulary of real instructions with architectural roles, and a "
+             "Spec.rawEdges vs the implementation's edges, a curated vocabulary of real instructions with architectural roles per status flag "
+             "(flag readers cmovcc/sbb/csel/cset/csinc; half of the kernels with flag dependencies), and a "
              "synthetic ISA database with random roles. The role assignment itself is inside the model (Props/C03Roles, 65 theorems: "
              "roles_spec, roles_partition, defaults per ISA, zero idiom, write-back, has_load/store_iff, op_*: the translated "
              "operation mini-programs compute dst = src +/- imm for all immediates), ISA databases and operation strings regenerated "
@@ -162,10 +166,15 @@ CLAIMS = {
              "three_ways_select; parse_file numbering is positional and strictly increasing. Marker constants regenerated from "
              "marker_utils.py. Tie: generated files through the real parsers + reduce_to_section, --lines strings through "
              "get_line_range; end-to-end metamorphic runs (marked / --lines / body alone / noise insertions / beyond line 1000) on "
-             "shipped kernels compared on parsed numbers.",
-        design="5/C11 + notes/C11.md",
-        note=COMMON_NOTE + "The analysis-level statements (three_ways_same, noise_transparent on numbers) are decided by the metamorphic runs on "
-             "the implementation, not by a theorem (they need the whole analysis model).",
+             "shipped kernels compared on parsed numbers (incl. non-canonical --lines spellings). At the level of the numeric analysis "
+             "(Model/Pipeline: selection, dependency graph, critical path, LCD, column sums composed; Props/C11Pipeline, 29 theorems, "
+             "all kernels/latencies/options): analysis_rename_equivariant, analysis_renumber_invariant, noise_drop, noise_transparent, "
+             "three_ways_same, blank_line_transparent_analysis; tied by the pipeline correspondence (real CLI path under --fixed vs the "
+             "driver's pipe.run, whole analysis at 1e-9).",
+        design="5/C11 + notes/C11.md + notes/C11Pipeline.md",
+        note=COMMON_NOTE + "In the pipeline model the per-instruction data (semantic operands, latencies, uniform pressure) are inputs, tied per run "
+             "and modelled by C03Roles/C07/C08/C01; the balancer is not on the --fixed path; noise_transparent carries the proved-necessary "
+             "hypothesis 0 < CP total for the CP marks (cp_zero_quirk).",
         technique="Lean 4 proof (induction over line lists, marker automaton) + differential correspondence + metamorphic end-to-end runs",
     ),
     "C13": dict(
@@ -210,7 +219,8 @@ CLAIMS = {
              "reported dictionary is a sub-dictionary of the untimed one with equal latencies), complete_if_in_time, "
              "complete_eq_sequential, flag_iff_cut (repaired loop), old_flag_spurious (witness for the unrepaired loop), exit_bound, "
              "poll_terminates. Tie: real processes with timeouts {0,1,2,generous,-1} on kernel_x86_long_LCD.s and generated kernels "
-             "(wall time bound, warning iff cut, subset with equal latencies, no child left, CP/TP unaffected) + virtual-clock runs.",
+             "(wall time bound on the best of three attempts with load-scaled slack, warning iff cut, subset with equal latencies, no child "
+             "left, CP/TP unaffected) + virtual-clock runs incl. the overhead bound in virtual time for timeouts up to 21 s.",
         design="5/C19 + notes/C19.md",
         note=COMMON_NOTE + "Partial by nature: wall-clock bounds, SIGKILL and reaping are runtime; the model cannot exhibit a hung join.",
         technique="Lean 4 proof (state machine of the poll loop) + real-process correspondence with real and virtual clocks",
